@@ -67,7 +67,9 @@ func (s *Server) urlGenHandlerFunc(w http.ResponseWriter, r *http.Request) {
 		for _, a := range aInfo.Assets {
 			if a.Path == asset {
 				data.MPDs = mpdsFromAssetInfo(a)
-				data.MPDs[0].Selected = true
+				if len(data.MPDs) > 0 {
+					data.MPDs[0].Selected = true
+				}
 			}
 		}
 		templateName = "mpds"
@@ -76,7 +78,9 @@ func (s *Server) urlGenHandlerFunc(w http.ResponseWriter, r *http.Request) {
 		for _, aI := range aInfo.Assets {
 			if aI.Path == asset {
 				data.DRMs = drmsFromAssetInfo(aI, s.Cfg.DrmCfg, "")
-				data.DRMs[0].Selected = true
+				if len(data.DRMs) > 0 { // Empty if no DRM is configured
+					data.DRMs[0].Selected = true
+				}
 			}
 		}
 		templateName = "drms"
@@ -256,9 +260,8 @@ func createURL(r *http.Request, aInfo assetsInfo, drmCfg *drm.DrmConfig) urlGenD
 	if tsbd != "" {
 		t, err := strconv.Atoi(tsbd)
 		if err != nil {
-			panic("bad tsbd")
-		}
-		if t != defaultTimeShiftBufferDepthS {
+			data.Errors = append(data.Errors, fmt.Sprintf("bad tsbd: %s", err.Error()))
+		} else if t != defaultTimeShiftBufferDepthS {
 			data.Tsbd = t
 			sb.WriteString(fmt.Sprintf("tsbd_%d/", t))
 		}
@@ -306,9 +309,8 @@ func createURL(r *http.Request, aInfo assetsInfo, drmCfg *drm.DrmConfig) urlGenD
 	if llTarget := q.Get("ltgt"); llTarget != "" {
 		lt, err := strconv.Atoi(llTarget)
 		if err != nil {
-			panic("bad ltgt")
-		}
-		if lt != defaultLatencyTargetMS {
+			data.Errors = append(data.Errors, fmt.Sprintf("bad ltgt: %s", err.Error()))
+		} else if lt != defaultLatencyTargetMS {
 			data.LlTarget = lt
 			sb.WriteString(fmt.Sprintf("ltgt_%d/", lt))
 		}
@@ -316,9 +318,8 @@ func createURL(r *http.Request, aInfo assetsInfo, drmCfg *drm.DrmConfig) urlGenD
 	if ptl := q.Get("patch-ttl"); ptl != "" {
 		patchTTL, err := strconv.Atoi(ptl)
 		if err != nil {
-			panic("bad patch-ttl")
-		}
-		if patchTTL > 0 {
+			data.Errors = append(data.Errors, fmt.Sprintf("bad patch-ttl: %s", err.Error()))
+		} else if patchTTL > 0 {
 			data.PatchTTL = ptl
 			sb.WriteString(fmt.Sprintf("patch_%s/", ptl))
 		}
